@@ -267,6 +267,9 @@ func (vc *VC) keepOwnedResults(st, pre *State, callee *ssa.Function, res Val, re
 	if !ok || res == nil || len(callee.Blocks) == 0 || os.Getenv("GVC_NOOWN") != "" {
 		return
 	}
+	if callee.Pkg == nil || !isRepoPkg(callee.Pkg.Pkg.Path()) {
+		return // only code of the repository is analysed; library functions need a stated contract
+	}
 	keep := func(k int, v Val, t types.Type, use ssa.Value) {
 		if !refLike(t) || use == nil || !vc.eng.ownedResult(callee, k) || !vc.eng.confined(use, false, map[ssa.Value]bool{}) {
 			return
